@@ -1,0 +1,259 @@
+// Verification contracts (comment-only, compiled only with the "verif" build tag; read by /verif/govc).
+
+//go:build verif
+// +build verif
+
+package staking
+
+// Property C07 — native tokens are conserved: staking handlers, take-effect handlers, rewards, withdraw queue, slashing.
+// The ghost ledger `c07Ledger` and the per-validator accounted amounts (`c07Tok`, `c07RD`, `c07Current`) are declared in
+// core/state/verif_contracts_c07.go.
+//
+// Pending (not yet effective) deposits and delegations: the value of a create / deposit / delegation-add transaction is
+// DETAINED from the moment the handler records the transaction in the staking trie (`AddStakingRecord` with its hash) and
+// is RELEASED when the transaction is replayed by its take-effect handler at the end of the staking period. Both moments
+// are ghost updates anchored at those instructions; in between the amount is part of the ledger ("deposits still pending
+// activation"). That every recorded transaction is replayed exactly once is not decided here (props/C07.json).
+
+// Helpers that only build log data / strings / hashes.
+//@ effectfree github.com/youchainhq/go-youchain/common.StringToHash (github.com/youchainhq/go-youchain/common.Address).Hash
+//@ effectfree github.com/youchainhq/go-youchain/staking.combinePendingStakingLogData (github.com/youchainhq/go-youchain/common.Address).String
+//@ effectfree github.com/youchainhq/go-youchain/common.BytesToHash github.com/youchainhq/go-youchain/common.BigToHash (github.com/youchainhq/go-youchain/common.Hash).Bytes
+//@ effectfree (github.com/youchainhq/go-youchain/common.Hash).String github.com/youchainhq/go-youchain/staking.getWithdrawLogData
+
+// The message being applied: plain accessors of an immutable value.
+//@ func (github.com/youchainhq/go-youchain/core.Message).From props C07
+//@ trusted
+//@ pure
+//@ func (github.com/youchainhq/go-youchain/core.Message).TxHash props C07
+//@ trusted
+//@ pure
+//@ func (github.com/youchainhq/go-youchain/core.Message).Nonce props C07
+//@ trusted
+//@ pure
+
+//@ func (Msg).PreCheck props C07
+//@ trusted
+//@ pure
+//@ func (Msg).Verify props C07
+//@ trusted
+//@ pure
+
+// Common admission check: on success the record returned is the stored one.
+//@ func validatorTxBasicCheck props C07
+//@ modifies nothing
+//@ ensures [found] result1 == nil ==> result0 != nil && c07Current(result0) && c07ValWF(result0)
+
+// Deposit request: the amount leaves the sender's balance and becomes a pending deposit.
+//@ func handleDeposit props C07
+//@ ghost after call (*github.com/youchainhq/go-youchain/core/state.StateDB).AddStakingRecord: c07Ledger := c07Ledger + big(tx.Value)
+//@ modifies all, c07Ledger
+//@ ensures [value-only-moves] c07Ledger == old(c07Ledger)
+
+// Deposit takes effect: the pending amount becomes staked tokens of the validator, or — when the stake limit is exceeded —
+// goes back to the sender ("a deposit … that fails to activate is refunded", protocol version 5).
+//@ func teDeposit props C07
+//@ requires ctx.Cfg.Version >= 5
+//@ ghost after call github.com/youchainhq/go-youchain/rlp.DecodeBytes: c07Ledger := c07Ledger - big(tx.Value)
+//@ modifies all, c07Ledger, c07Tok, c07RD
+//@ ensures [value-only-moves] c07Ledger == old(c07Ledger)
+
+// ---------------------------------------------------------------------------------------------------------------
+// Rewards
+// ---------------------------------------------------------------------------------------------------------------
+
+// Local statistics recorder: not part of the state.
+//@ func (github.com/youchainhq/go-youchain/local.DetailRecorder).AddReward props C07
+//@ trusted
+//@ pure
+
+// Settlement pays a validator's unsettled rewards out to its coinbase and delegators; what is not paid stays in the record
+// as residue: Σ credited + new RewardsDistributable == old RewardsDistributable.
+// `val` must be the stored record (requires [current]): settling a stale copy would write back stale amounts.
+//@ func settleValidatorRewards props C07
+//@ requires [current] c07Current(val)
+//@ requires c07ValWF(val)
+//@ modifies all(state.stateObject.data), ctx.db.validatorsStatModified,
+//@     all(state.ValKindStat.onlineCount), all(state.ValKindStat.offlineCount), c07Ledger, c07Tok, c07RD
+//@ loop #1 invariant [paid-from-total] c07Ledger + big(record.total) == entry(c07Ledger) + entry(big(record.total))
+//@ loop #1 invariant [frame] big(val.Token) == entry(big(val.Token)) && big(val.RewardsDistributable) == entry(big(val.RewardsDistributable)) &&
+//@     big(record.residue) == entry(big(record.residue)) && c07Tok == entry(c07Tok) && c07RD == entry(c07RD)
+//@ loop #1 invariant [big-frame] forall p: *big.Int :: { old(big(p)) } old(allocated(p)) ==> big(p) == old(big(p))
+//@ ensures [value-only-moves] c07Ledger == old(c07Ledger)
+//@ ensures [token-untouched] c07Tok == old(c07Tok)
+//@ ensures [others-untouched] c07RD == store(old(c07RD), c07Addr(val), c07RD[c07Addr(val)])
+
+// ---------------------------------------------------------------------------------------------------------------
+// Staking requests (pending) — amount leaves the balance, enters "pending".
+// ---------------------------------------------------------------------------------------------------------------
+
+//@ effectfree (*github.com/youchainhq/go-youchain/staking.TxCreateValidator).Verify (*github.com/youchainhq/go-youchain/staking.TxCreateValidator).PreCheck
+//@ effectfree github.com/youchainhq/go-youchain/core/state.PubToAddress
+
+// Create request: the self-stake leaves the sender's balance and becomes a pending deposit.
+//@ func handleCreate props C07
+//@ ghost after call (*github.com/youchainhq/go-youchain/core/state.StateDB).AddStakingRecord: c07Ledger := c07Ledger + big(tx.Value)
+//@ modifies all, c07Ledger
+//@ ensures [value-only-moves] c07Ledger == old(c07Ledger)
+
+// Withdraw request: nothing moves yet (the stake moves into the withdraw queue when the request takes effect).
+//@ func handleWithdraw props C07
+//@ modifies all
+//@ ensures [value-only-moves] c07Ledger == old(c07Ledger)
+
+//@ effectfree (github.com/youchainhq/go-youchain/common/hexutil.Bytes).String
+
+//@ func (github.com/youchainhq/go-youchain/core.Message).To props C07
+//@ trusted
+//@ pure
+
+//@ func commonVarForDelegation props C07
+//@ modifies nothing
+//@ ensures result4 == nil ==> result0 == ctx.State && result2 != nil && c07Current(result2) && c07ValWF(result2)
+
+//@ func checkAndUpdateTotalPendingStakesOfValidator props C07
+//@ modifies nothing
+
+//@ func addPendingDelegationRecordAndLog props C07
+//@ modifies db.logSize
+
+// Delegation request: the amount leaves the delegator's balance and becomes a pending delegation.
+//@ func handleDelegationAdd props C07
+//@ ghost after call addPendingDelegationRecordAndLog: c07Ledger := c07Ledger + big(d.Value)
+//@ modifies all, c07Ledger
+//@ ensures [value-only-moves] c07Ledger == old(c07Ledger)
+
+// Un-delegation request: nothing moves yet.
+//@ func handleDelegationSub props C07
+//@ modifies all
+//@ ensures [value-only-moves] c07Ledger == old(c07Ledger)
+
+// ---------------------------------------------------------------------------------------------------------------
+// Take-effect handlers (end of the staking period): pending ⇒ staked, or ⇒ refunded (V5); staked ⇒ withdraw queue.
+// ---------------------------------------------------------------------------------------------------------------
+
+// Create takes effect: the pending self-stake becomes the new validator's Token.
+//@ func teCreate props C07
+//@ ghost after call github.com/youchainhq/go-youchain/rlp.DecodeBytes: c07Ledger := c07Ledger - big(tx.Value)
+//@ modifies all, c07Ledger, c07Tok, c07RD
+//@ ensures [value-only-moves] c07Ledger == old(c07Ledger)
+
+// Withdraw takes effect: what leaves the validator's Token is exactly the FinalBalance of the new withdraw record.
+//@ func teWithdraw props C07
+//@ requires ctx.Cfg.Version >= 5
+//@ requires [admitted] c07Admitted(payload)
+//@ modifies all, c07Ledger, c07Tok, c07RD
+//@ ensures [value-only-moves] c07Ledger == old(c07Ledger)
+
+//@ func addWithdrawLog props C07
+//@ requires [non-negative] big(withdrawToken) >= 0
+//@ modifies all, c07Ledger
+//@ ensures [queued] c07Ledger == old(c07Ledger) + old(big(withdrawToken))
+
+// Delegation takes effect: the pending amount becomes staked tokens of the validator, or — validator expelled / not accepting /
+// over the stake limit — goes back to the delegator ("a … delegation that fails to activate is refunded", protocol version 5).
+//@ func teDelegationAdd props C07
+//@ requires ctx.Cfg.Version >= 5
+//@ ghost before call (*github.com/youchainhq/go-youchain/core/state.StateDB).GetValidatorByMainAddr: c07Ledger := c07Ledger - big(d.Value)
+//@ modifies all, c07Ledger, c07Tok, c07RD
+//@ ensures [value-only-moves] c07Ledger == old(c07Ledger)
+
+// Un-delegation takes effect: what leaves the validator's Token is exactly the FinalBalance of the new withdraw record.
+//@ func teDelegationSub props C07
+//@ requires ctx.Cfg.Version >= 5
+//@ modifies all, c07Ledger, c07Tok, c07RD
+//@ ensures [value-only-moves] c07Ledger == old(c07Ledger)
+
+// End-of-period distribution. THIN contract: the function-level equality (per role: Σ distributed + residue == pool) is NOT DECIDED
+// (props/C07.json, engine_requests/C07.md #8). What is checked are the call-site preconditions of the primitives, in particular
+//   distributeRewards#call[settleValidatorRewards#1].requires[current]
+// — the record handed to the forced settlement right after `UpdateValidator(newVal, val)` must carry the amounts the ledger holds, i.e. it must be
+// the record just stored ("rewards distributed to a validator are never lost by a later settlement"; defect (b), repaired by commit 8ec0f53).
+// ASSUMED at the two points where a record taken from the validator list is first used (anchored assumptions, listed in the evidence):
+// it is non-nil, well-formed and still the stored record when its turn comes. This is what the getter's contract gives for every list element
+// (stored record, one record per address) together with the fact that an iteration only replaces the record of ITS validator; the loop
+// invariant that would carry it ([unvisited-current] over `rangeindex`) generates obligations that time out (phi-merged slice, see #8).
+//@ func (*Staking).distributeRewards props C07
+//@ requires ctx.header.CurrVersion >= 5
+//@ modifies all, c07Ledger, c07Tok, c07RD
+//@ assume before call settleValidatorRewards#2: [list-record-is-stored] val != nil && c07Current(val) && c07ValWF(val)
+//@ assume before call (*github.com/youchainhq/go-youchain/core/state.StateDB).UpdateValidator#1: [list-record-is-stored] val != nil && c07Current(val) && c07ValWF(val)
+
+// Block rewards: total == gas + residue + subsidy; the subsidy comes out of the rewards pool account (exactly, and never more than the pool
+// holds); the block's fees leave "GasRewards in transit" here (ghost update at the point they are read).
+//@ func blockRewards props C07
+//@ requires big(header.GasRewards) >= 0 && big(residue) >= 0
+//@ ghost after call (*math/big.Int).Set#1: c07Ledger := c07Ledger - big(a1)
+//@ assert before call (*github.com/youchainhq/go-youchain/core/state.StateDB).SubBalance: [subsidy-within-pool] big(a2) > 0 && big(a2) <= big(poolBalance)
+//@ modifies header.Subsidy, all(state.stateObject.data), c07Ledger
+//@ ensures [total] big(result) == old(big(header.GasRewards)) + old(big(residue)) + big(header.Subsidy) && big(header.Subsidy) >= 0
+//@ ensures [subsidy-from-pool] c07Ledger == old(c07Ledger) - old(big(header.GasRewards)) - big(header.Subsidy)
+
+// ---------------------------------------------------------------------------------------------------------------
+// Withdraw queue: "withdrawn stake returns to its recipient exactly once". A record counts FinalBalance while Finished == 0;
+// setting Finished takes it out of the ledger (ghost update anchored at the two stores), the payment puts it into the balance.
+// ---------------------------------------------------------------------------------------------------------------
+
+//@ effectfree github.com/youchainhq/go-youchain/staking.processWithdrawQueue$1
+
+//@ func (*github.com/youchainhq/go-youchain/core/state.WithdrawRecord).IsMature props C07
+//@ nobody
+//@ pure
+
+//@ func processWithdrawQueue props C07
+//@ opt abstract-slices
+// A record contributes its FinalBalance while Finished == 0 and FinalBalance > 0 (AddWithdrawRecord requires FinalBalance >= 0, takePenalty never
+// takes more than the balance): the `FinalBalance <= 0` branch only flags an empty record. The release branch takes the record out of the ledger:
+// ghost update anchored at the call immediately preceding its `record.Finished = 1` store (`ghost before store` is evaluated in the post-store
+// heap, engine_requests/C07.md #9).
+//@ ghost before call (*math/big.Int).Set#1: c07Ledger := c07Ledger - (if record.Finished == 0 then big(record.FinalBalance) else 0)
+//@ modifies all, c07Ledger
+//@ loop #1 invariant [paid-once] c07Ledger == old(c07Ledger)
+//@ loop #1 invariant [big-frame] forall p: *big.Int :: { old(big(p)) } old(allocated(p)) ==> big(p) == old(big(p))
+//@ ensures [value-only-moves] c07Ledger == old(c07Ledger)
+
+// ---------------------------------------------------------------------------------------------------------------
+// Slashing: "penalties arrive in the penalty account".
+// ---------------------------------------------------------------------------------------------------------------
+
+// takePenalty (C05 verifies its distribution rule) — ASSUMED here: what it reports as totalPenalty is what it took out of the
+// validator's unfinished withdraw records (in place: the ledger drops by that part) plus what the new record's Token is short of the old one.
+//@ func takePenalty props C07
+//@ nobody
+//@ modifies c07Ledger
+//@ ensures val != nil && fresh(newVal) && c07ValWF(newVal) && c07Addr(newVal) == c07Addr(val) && fresh(totalPenalty)
+//@ ensures big(newVal.RewardsDistributable) == big(val.RewardsDistributable)
+//@ ensures c07Ledger <= old(c07Ledger) && big(totalPenalty) == (old(c07Ledger) - c07Ledger) + big(val.Token) - big(newVal.Token)
+
+//@ func (*github.com/youchainhq/go-youchain/core/state.StateDB).ValidatorsModified props C07
+//@ nobody
+//@ pure
+
+//@ func doPenalize props C07
+//@ requires [current] c07Current(val)
+//@ requires [non-negative] big(penaltyAmount) >= 0
+//@ requires c07ValWF(val)
+//@ modifies all, c07Ledger, c07Tok, c07RD
+//@ ensures [penalty-arrives] c07Ledger == old(c07Ledger)
+
+// rewardsToPool — per-block rewards into the role pools / the proposer, remainder into the global residue.
+// THIN contract: the function-level equality `Σ role rewards + residue == blockRewards` is NOT DECIDED (three range loops over the role map and the
+// non-linear `per x Σ ratio == Σ per x ratio`, props/C07.json). What is checked:
+//  * [portions-nonzero] the divisor of the per-portion division (sum of the ratios of the roles that have an ONLINE validator) is not zero —
+//    the defect (c) repaired by commit 73b6af7 (`if sumOfPortions == 0 { …residue…; return }`); the library precondition of QuoRem is a panic
+//    condition and assumed under `panics ignored`, hence the explicit assert;
+//  * the call-site preconditions of the primitives it uses: blockRewards (non-negative inputs), AddTotalRewards, UpdateValidator
+//    ([current]: `oldVal` is the copy taken before the stored proposer record is credited in place).
+// hexutil.Uint64ToBytes (used by Validator.UpdateLastActive): builds a byte slice, no effect on modelled state.
+//@ effectfree github.com/youchainhq/go-youchain/common/hexutil.Uint64ToBytes
+//@ func rewardsToPool props C07
+//@ requires ctx.header.CurrVersion >= 5
+//@ requires [fees-non-negative] big(ctx.header.GasRewards) >= 0
+//@ modifies all, c07Ledger, c07Tok, c07RD
+//@ assert before call (*math/big.Int).QuoRem: [portions-nonzero] big(a2) != 0
+// (loop #1 calls the value-receiver getter GetCount on the role buckets: the engine havocs the bucket field heaps at its header, so the
+//  identity of the House pool counter — the only pool credited under V5 — is carried explicitly)
+//@ loop #1 invariant [pool-in-place] allocated(initStat.Roles[params.RoleHouse]) && initStat.Roles[params.RoleHouse] == entry(initStat.Roles[params.RoleHouse]) &&
+//@     initStat.Roles[params.RoleHouse].rewardsDistributable == entry(initStat.Roles[params.RoleHouse].rewardsDistributable)
+//@ loop #3 invariant [copy-untouched] big(oldVal.Token) == entry(big(oldVal.Token)) && big(oldVal.RewardsDistributable) == entry(big(oldVal.RewardsDistributable))
+//@ loop #4 invariant [copy-untouched] big(oldVal.Token) == entry(big(oldVal.Token)) && big(oldVal.RewardsDistributable) == entry(big(oldVal.RewardsDistributable))
